@@ -1,3 +1,3 @@
 From Coq Require Import Extraction ExtrOcamlBasic.
-From MTV Require Import Base.Outcome TL.Types TL.Codec TL.Typing TL.TLText TL.Spec TL.Conform.
-Extraction "model.ml" enc decode_named decode_unknown fuel_for wt abs spec parse_lines defs conforms sdepth.
+From MTV Require Import Base.Outcome TL.Types TL.Codec TL.Typing TL.TLText TL.Spec TL.Conform TL.Canonical.
+Extraction "model.ml" enc decode_named decode_unknown fuel_for wt abs spec parse_lines defs conforms sdepth canonical.
